@@ -109,7 +109,7 @@ class SymString:
         return z3.And(z3.UGE(b, lo), z3.ULE(b, hi))
 
 
-def encode_run(aut, sym, classes=None, tag="r", start=None):
+def encode_run(aut, sym, classes=None, tag="r", start=None, start_set=None):
     """Unrolled run of `aut` over sym (exact length). Returns (constraints, states) where states[k][q] is a Bool:
     'after k bytes the automaton is in state q' (exactly one true). One-hot encoding, pure SAT."""
     if classes is None:
@@ -128,7 +128,16 @@ def encode_run(aut, sym, classes=None, tag="r", start=None):
             row.append(aut.step(q, lo))
         tab.append(row)
     states = []
-    s0 = [z3.BoolVal(q == (aut.init if start is None else start)) for q in range(aut.n)]
+    if start_set is not None:
+        # symbolic start state: exactly one of start_set
+        ss = sorted(start_set)
+        s0 = [z3.Bool("%s_s0_%d" % (tag, q)) if q in start_set else z3.BoolVal(False) for q in range(aut.n)]
+        cons.append(z3.Or(*[s0[q] for q in ss]))
+        for i in range(len(ss)):
+            for j in range(i + 1, len(ss)):
+                cons.append(z3.Or(z3.Not(s0[ss[i]]), z3.Not(s0[ss[j]])))
+    else:
+        s0 = [z3.BoolVal(q == (aut.init if start is None else start)) for q in range(aut.n)]
     states.append(s0)
     for k in range(n):
         prev = states[-1]
